@@ -16,8 +16,8 @@ struct Rig {
         set_size(c.n, c.nb);
         ps = mkps(-6, 6, -c.pext, c.pext, even_filling(c.nb));
         z = std::make_shared<Impedance>(std::vector<impedance_t>(c.N, impedance_t(0, 0)), 1e12f);
-        if (longctor) f.reset(new ElectricField(ps, z, c.buckets, c.spacing, nullptr, frev, revpart, Ib, E0, sd, dt));
-        else f.reset(new ElectricField(ps, z, c.buckets, c.spacing, nullptr, frev, revpart));
+        f.reset(with_scratch(c.buckets, [&](const std::vector<uint32_t>& bk) { return longctor ? new ElectricField(ps, z, bk, c.spacing, nullptr, frev, revpart, Ib, E0, sd, dt)
+                                                                                                  : new ElectricField(ps, z, bk, c.spacing, nullptr, frev, revpart); }));
     }
     void set_profile(unsigned b, const std::vector<float>& p) {
         boost::multi_array<projection_t, 1> a(boost::extents[c.n]);
